@@ -23,6 +23,9 @@ const GATE: &str = "gate = #{ !'int }";
 /// a supervisor: one select over the victim and processes that never finish
 const SUP: &str = "sup = #[(@-> 'int), (@-> 'int), (@-> 'int), 'int] { =[a, b, c, s], w = [s, 0] spin, ! [a, b, c] }";
 const NEVER: &str = "never = #{ !'int }";
+/// a supervisor that first polls a slow by-stander with a short timeout - leaving a registration
+/// behind if that times out - and then selects over a process that never finishes and the victim
+const SUP2: &str = "sup2 = #[(@-> 'int), (@-> 'int), (@-> 'int), 'int] { =[slow, nv, v, t], x = [! [slow, t]], ! [nv, v] }";
 const SINK: &str = "sink = #{ !#\\File, 5 }";
 
 #[derive(Clone, Copy, Debug, PartialEq)]
@@ -207,7 +210,7 @@ impl Property for C15 {
         let receives = !filter_kind && rng.chance(1, 2);
         let vspin = *rng.pick(&[0u32, 0, 5, 20, 60]);
         let (vdef, io) = victim_def(f, vspin, receives);
-        let mut defs: Vec<String> = vec![super::c04::SPIN.into(), AW.into(), BY.into(), SNDV.into(), REL.into(), REL2.into(), REL3.into(), POLL.into(), POLLW.into(), GATE.into(), SUP.into(), NEVER.into()];
+        let mut defs: Vec<String> = vec![super::c04::SPIN.into(), AW.into(), BY.into(), SNDV.into(), REL.into(), REL2.into(), REL3.into(), POLL.into(), POLLW.into(), GATE.into(), SUP.into(), NEVER.into(), SUP2.into()];
         if f == Fail::Ownership {
             defs.push(SINK.into());
         }
@@ -302,6 +305,14 @@ impl Property for C15 {
             let p = fresh_path(&mut next_child);
             expect_err.push(p);
             h.u64(0x5a);
+        }
+        if rng.chance(1, 3) {
+            body.push("nv3 = @never".to_string());
+            let _ = fresh_path(&mut next_child);
+            body.push(format!("sq = [&b0, &nv3, &v, {}] @sup2", *rng.pick(&[0u32, 2, 8, 30])));
+            let p = fresh_path(&mut next_child);
+            expect_err.push(p);
+            h.u64(0x5b);
         }
         // by-standers that ask for more bytes than a binary can hold: a read of 20 000 000 from a file of
         // 16 MiB + 4 KiB (rare: every run moves 16 MiB through the transport and the event log), and a
